@@ -63,6 +63,27 @@ theorem horner_list (x : K) (l : List K) (lead : K) :
     simp only [List.foldr_cons, List.cons_append]
     rw [toPoly_cons, ih, eval_add, eval_mul_X, eval_C, add_comm]
 
+/-! ### sizes and empty operands (minimal class assumptions) -/
+
+theorem ne_empty_iff {p : Array K} : p ≠ #[] ↔ p.size ≠ 0 := by
+  constructor
+  · intro h hs; exact h (Array.eq_empty_of_size_eq_zero hs)
+  · intro h e; subst e; simp at h
+
+theorem size_add (p q : Array K) (hp : p.size ≠ 0) (hq : q.size ≠ 0) :
+    (add p q).size = max p.size q.size := by simp [add, hp, hq]
+theorem add_nil_left (q : Array K) : add (#[] : Array K) q = q := by simp [add]
+theorem add_nil_right (p : Array K) : add p (#[] : Array K) = p := by
+  unfold add
+  by_cases h : p.size = 0
+  · have : p = #[] := Array.eq_empty_of_size_eq_zero h
+    simp [this]
+  · simp [h]
+theorem mul_nil_left (p : Array K) : mul (#[] : Array K) p = #[] := by simp [mul]
+theorem mul_nil_right (p : Array K) : mul p (#[] : Array K) = #[] := by
+  unfold mul; by_cases h : p.size = 0 <;> simp [h]
+theorem size_smul (p : Array K) (t : K) : (smul p t).size = p.size := by simp [smul]
+
 /-! ### the convolution folds of `Poly.mul` -/
 
 /-- inner loop of `mul`: adds `a * q[j]` to slot `i + j` for `j < n` -/
